@@ -20,7 +20,10 @@ for meta in "$HERE"/selftest/mutants/*.expect; do
   ok=1
   while read -r ob; do
     [ -z "$ob" ] && continue
-    if ! echo "$out" | grep -F "VIOLATION property=$prop" | grep -qF "obligation=$ob "; then ok=0; echo "SELFTEST $name: expected obligation $ob to fail"; fi
+    case "$ob" in
+      bounded:*) if ! echo "$out" | grep -F "VIOLATION property=$prop" | grep -qF "bounded stand-in ${ob#bounded:} failed"; then ok=0; echo "SELFTEST $name: expected bounded stand-in ${ob#bounded:} to fail"; fi;;
+      *) if ! echo "$out" | grep -F "VIOLATION property=$prop" | grep -qF "obligation=$ob "; then ok=0; echo "SELFTEST $name: expected obligation $ob to fail"; fi;;
+    esac
   done < <(sed -n 's/^obligation: *//p' "$meta")
   if [ $ok = 1 ]; then echo "SELFTEST $name: ok (detected)"; else fail=1; echo "$out" | tail -5; fi
 done
